@@ -49,12 +49,22 @@ def judge(case):
     T = len(r)
     try:
         pg = position_grid(f"{alg}_{N}", case["t_text"])
+        getters = {"volumes": lambda: np.asarray(pg.get_all_position_volumes()),
+                   "adjacency": lambda: dense(pg.get_adjacency_of_position_grid()),
+                   "borders": lambda: dense(pg.get_borders_of_position_grid()).astype(float),
+                   "distances": lambda: dense(pg.get_distances_of_position_grid()).astype(float)}
+        order = case.get("order") or ["volumes", "adjacency", "borders", "distances"]
         with quiet():
-            vol = np.asarray(pg.get_all_position_volumes())
-            adj = dense(pg.get_adjacency_of_position_grid())
-            bor = dense(pg.get_borders_of_position_grid()).astype(float)
-            dis = dense(pg.get_distances_of_position_grid()).astype(float)
+            first = {}
+            for name in order:          # the getters in a generated order ...
+                first[name] = getters[name]()
+            again = {name: getters[name]() for name in reversed(order)}   # ... and all of them once more
             lib_r = np.asarray(pg.get_radii())
+        vol, adj, bor, dis = first["volumes"], first["adjacency"], first["borders"], first["distances"]
+        for name in order:
+            if first[name].shape != again[name].shape or not np.array_equal(first[name], again[name]):
+                return [f"{name} of the same position grid differ between the first and a second query "
+                        f"(order {order}, max deviation {np.abs(first[name].astype(float) - again[name].astype(float)).max():.3g})"]
     except Exception as e:
         return [f"exception {type(e).__name__}: {e}"]
     n = N * T
@@ -167,7 +177,8 @@ def _shard(arg):
             stop = a + step * T - step / 2  # exactly T points, far from the floating-point boundary
             args = [dec(a), dec(stop), dec(step)]
             text = f"range({args[0]}, {args[1]}, {args[2]})"
-        return {"o_alg": alg, "n_o": n_o, "t_kind": kind, "t_args": args, "t_text": text}
+        return {"o_alg": alg, "n_o": n_o, "t_kind": kind, "t_args": args, "t_text": text,
+                "order": list(draw(st.permutations(["volumes", "adjacency", "borders", "distances"])))}
 
     def builder(res, fail):
         @given(cases())
@@ -200,7 +211,7 @@ def run(tier):
     total, max_no = (960, 60) if tier == "quick" else (4800, 200)
     res = merge_results(pmap(_shard, [(s, total // 16, max_no) for s in range(16)]))
     rule = (f"Hypothesis: direction grid ico/cube3D/randomS with N in 4..{max_no}; radial grid with T in 2..6 strictly increasing "
-            f"positive radii as unsorted list / tuple (free, nearly regular with steps differing by 1e-6..1e-3 nm, or tiny radii), linspace or range text; every cell and every pair "
+            f"positive radii as unsorted list / tuple (free, nearly regular with steps differing by 1e-6..1e-3 nm, or tiny radii), linspace or range text; the four getters called in a generated order and then once more; every cell and every pair "
             f"of cells compared (dense n x n, n = N*T). Non-trivial = T>=3 with unequal increments, or N not a complete "
             f"subdivision level; distinct = distinct (direction grid, radial text).")
     return res, rule, {"assumptions": ["area, arc and angle on the unit sphere come from the independent clipping oracle; pairs whose "
